@@ -557,22 +557,32 @@ func (c *Compiler) writeNodeDEQ(node, parent *node, recv, path, lv, rv string, d
 		deqMustSkipByType = parent.typ != typeMap && parent.typ != typeSlice
 		deqMustSkipByTypeAndPath = len(path) > 0 && parent.typ != typeMap && parent.typ != typeSlice
 	}
+	isBytes := node.typ == typeSlice && node.typn == "[]byte"
+	// Struct, map and slice fields are compared as a whole (nil-ness of the pointer included) only when
+	// the options ask for the field.
+	if node.typ == typeBasic || isBytes {
+		deqMustSkipByTypeAndPath = false
+	}
+	if deqMustSkipByTypeAndPath {
+		c.wl("if inspector.DEQMustCheck(\"", path, "\",opts){")
+	}
 
 	if node.ptr {
 		// The pointer itself: a named leaf (scalar or bytes field) is reached through its parent variable.
 		plv, prv := lv, rv
-		if len(node.name) > 0 && (node.typ == typeBasic || (node.typ == typeSlice && node.typn == "[]byte")) {
+		if len(node.name) > 0 && (node.typ == typeBasic || isBytes) {
 			plv, prv = lv+"."+node.name, rv+"."+node.name
 		}
-		c.wl("if (", plv, "==nil && ", prv, "!=nil) || (", plv, "!=nil && ", prv, "==nil) {return false}")
+		mustCheck := ""
+		if isBytes || (node.typ == typeBasic && deqMustSkipByType) {
+			mustCheck = " && inspector.DEQMustCheck(\"" + path + "\",opts)"
+		}
+		c.wl("if ((", plv, "==nil && ", prv, "!=nil) || (", plv, "!=nil && ", prv, "==nil))", mustCheck, " {return false}")
 		c.wl("if ", plv, "!=nil && ", prv, "!=nil {")
 	}
 
 	switch node.typ {
 	case typeStruct:
-		if deqMustSkipByTypeAndPath {
-			c.wl("if inspector.DEQMustCheck(\"", path, "\",opts){")
-		}
 		for _, ch := range node.chld {
 			nlv, nrv := lv, rv
 			isBasic := ch.typ == typeBasic || (ch.typ == typeSlice && ch.typn == "[]byte")
@@ -588,15 +598,9 @@ func (c *Compiler) writeNodeDEQ(node, parent *node, recv, path, lv, rv string, d
 				return err
 			}
 		}
-		if deqMustSkipByTypeAndPath {
-			c.wl("}")
-		}
 	case typeMap:
 		nlv := c.fmtVnb(node, lv, depth)
 		nrv := c.fmtVnb(node, rv, depth)
-		if deqMustSkipByTypeAndPath {
-			c.wl("if inspector.DEQMustCheck(\"", path, "\",opts){")
-		}
 		c.wl("if len(", nlv, ")!=len(", nrv, "){return false}")
 		c.wl("for k:=range ", nlv, "{")
 		c.cntrDEQ++
@@ -611,19 +615,13 @@ func (c *Compiler) writeNodeDEQ(node, parent *node, recv, path, lv, rv string, d
 			return err
 		}
 		c.wl("}")
-		if deqMustSkipByTypeAndPath {
-			c.wl("}")
-		}
 	case typeSlice:
-		if node.typn == "[]byte" {
+		if isBytes {
 			nlv, nrv := lv+"."+node.name, rv+"."+node.name
 			c.wl("if !bytes.Equal(", c.fmtVnb(node, nlv, depth), ",", c.fmtVnb(node, nrv, depth), ") && inspector.DEQMustCheck(\"", path, "\",opts){return false}")
 		} else {
 			nlv := c.fmtVnb(node, lv, depth)
 			nrv := c.fmtVnb(node, rv, depth)
-			if deqMustSkipByTypeAndPath {
-				c.wl("if inspector.DEQMustCheck(\"", path, "\",opts){")
-			}
 			c.wl("if len(", nlv, ")!=len(", nrv, "){return false}")
 			c.wl("for i:=0;i<len(", nlv, ");i++{")
 			c.cntrDEQ++
@@ -636,9 +634,6 @@ func (c *Compiler) writeNodeDEQ(node, parent *node, recv, path, lv, rv string, d
 				return err
 			}
 			c.wl("}")
-			if deqMustSkipByTypeAndPath {
-				c.wl("}")
-			}
 		}
 	case typeBasic:
 		plv, prv := lv, rv
@@ -663,6 +658,9 @@ func (c *Compiler) writeNodeDEQ(node, parent *node, recv, path, lv, rv string, d
 	}
 
 	if node.ptr {
+		c.wl("}")
+	}
+	if deqMustSkipByTypeAndPath {
 		c.wl("}")
 	}
 
